@@ -130,6 +130,16 @@ def check_case(case):
                 res.bad("C16/joint-state-differs-from-sequential", {**info, "order": [list(m) for m in perm], "diff": pddl.state_diff(exp, got)})
                 return res
     res.evals = n
+    if kind == "ok" and not (has_forall and ctx.active(F_D16)):
+        # apply_actions also takes the joint action as written, nop entries included (it skips them itself)
+        padded = [ActionCall(m[0], list(m[1:])) for m in slots]
+        okr, got = lib_call(lambda: read_lib_state(apply_actions(domain, build_state(domain, world, st), padded, problem_objects=objs)))
+        if not okr:
+            res.bad(f"C16/apply_actions-with-nop-entries/exception:{got.key}", {**info, "error": repr(got)})
+            return res
+        if not pddl.states_equal(exp, got):
+            res.bad("C16/apply_actions-with-nop-entries/state-differs", {**info, "diff": pddl.state_diff(exp, got)})
+            return res
     if kind != "ok" or (has_forall and ctx.active(F_D16)):
         return res
     # the exporter: one chained step per joint action, nops anywhere, text reads back
